@@ -36,6 +36,8 @@ TEMPLATES = [
     "bz.melody(\"siren\", tempo={P})", "pin_mode({P}, OUTPUT)", "digital_write(1, {P})", "x = analog_read({P})", "target({P})",
     "x = {P}", "x = 1\nx += {P}", "def g(a):\n    return {P}\ny = g(1)", "a, b = {P}, 1", "m2 = SerialMonitor({P})", "m3 = DCMotor({P}, 2, 3)",
     "m.set_speed({P})", "m.ramp({P}, {P})", "x = len({P})", "x = abs({P})", "x = min({P}, 1)", "x = int({P})", "x = str({P})",
+    "def g(a):\n    q = [a, {P}]\n    return 1\ny = g([1, 2])", "def g(a):\n    return a\ny = g([{P}, 2])", "def g(a, b):\n    return a\ny = g({P}, [1])",
+    "def g(a):\n    a.append({P})\n    return a\ny = g([1])", "def g(a):\n    return g({P})\ny = g(1)", "def g(a):\n    return a + 1\ny = g({P})\nz = g([1, 2])",
     "x = 1 if {P} else 2", "try:\n    x = {P}\nexcept {P}:\n    x = 2", "items.append({P})", "x = -{P}", "x = not {P}", "x = 1 < {P} < 3",
 ]
 
@@ -71,6 +73,15 @@ def gen_inputs(t, sd):
     # (i) supported scripts
     for s in corpus.mixed((PROP, sd), 20 if t == "quick" else 200, 10 if t == "quick" else 60, 10 if t == "quick" else 60):
         add("supported", s)
+    # (i-b) helper bodies x call-site argument types (type-specialised variants, including ones that must be rejected)
+    bodies = ["y = [x, 1]", "y = x + 1", "y = x[0]", "x.append(1)", "y = len(x)", "y = x * 2", "if x:\n        y = 1", "y = [x]", "y = x - 1.5",
+              "y = f\"{x}\"", "for k in range(x):\n        y = k", "y = x\n    y = [1]", "x = [x]", "y = x == 1"]
+    args = ["1", "1.5", "\"s\"", "[1, 2]", "[\"a\"]", "[1.5]", "True", "[]", "[[1], [2]]", "(1, 2)"]
+    for bi, body in enumerate(bodies):
+        for ai, arg in enumerate(args):
+            if t == "quick" and (bi * 7 + ai) % 3 != sd % 3:
+                continue
+            add(f"variants:{bi}:{ai}", PRELUDE + f"def hv(x):\n    {body}\n    return 1\nr1 = hv({arg})\nr2 = hv(2)\nmon.write(r1)\n")
     # (ii) position x payload
     pairs = [(a, b) for a in range(len(TEMPLATES)) for b in range(len(PAYLOADS))]
     rng.shuffle(pairs)
